@@ -16,7 +16,7 @@ pub fn oracle(o: &Outcome, s: &Scen) -> Option<(String, serde_json::Value)> {
 }
 
 pub fn run(cfg: &Cfg, rep: &mut Report) {
-  let n = cfg.n(16_000, 600_000);
+  let n = cfg.n(16_000, 2_500_000);
   if cfg.mode == "dbg" {
     // the thorough-tier deadlock scenario, many seeds
     use crate::ast::*;
